@@ -22,6 +22,7 @@ THEOREMS = ["C33_ok_iff_up_to_date", "C33_outcome_spec", "C33_line_endings_condi
 CORPUS = os.path.join(vf.ROOT, "corpus", "C33.txt")
 QUICK_LANGS = ["rust", "c", "markdown", "moonbit"]
 THOROUGH_LANGS = QUICK_LANGS + ["go", "csharp", "cpp"]
+FIXED_WORLD_EXTRA_LANGS = ["go"]     # quick tier: only the fixed tiny world is run for these
 TINY_WIT = "package t:p;\n\nworld w {\n  /// doc\n  import f: func(x: u32) -> string;\n  export g: func();\n}\n"
 # documentation with 2-, 3- and 4-byte UTF-8 sequences and a TAB (control characters are rejected by wit-parser)
 UNI_WIT = ("package t:p;\n\nworld w {\n  /// caf\u00e9 \u2192 \U0001F600 \u65e5\u672c nbsp\u00a0 ls\u2028 \ud7ff \ufffd \U0010fffd\n  ///\tTab\n"
@@ -183,7 +184,7 @@ def load_corpus():
 
 def run(ctx):
     quick = ctx.tier == "quick"
-    n_worlds, n_scen, langs = (6, 4, QUICK_LANGS) if quick else (30, 6, THOROUGH_LANGS)
+    n_worlds, n_scen, langs = (4, 3, QUICK_LANGS) if quick else (30, 6, THOROUGH_LANGS)
     ctx.assumptions += [
         "model: the file system is what the loop observes: fs p = Some bytes iff std::fs::read(dst) succeeds (missing file, directory in place => None); files = generator output in BTreeMap order",
         "model: str::from_utf8 = well-formed UTF-8 (Unicode table 3-7), char::is_control = category Cc (U+0000-001F, U+007F-009F), str::lines as in Core/Config.v (shared with C34, tied there too)",
@@ -211,17 +212,26 @@ def _run(ctx, workdir, n_worlds, n_scen, langs):
     gid = 0
     for c in load_corpus():
         groups.append((gid, c["lang"], c["wit"], (lambda perts: (lambda names, files: [perts]))(c["perts"]), "corpus")); gid += 1
-    # the tiny world with EVERY perturbation kind on every file kind, all languages
-    for lang in langs:
+    # the tiny world, all languages (+ go, whose `empty.s` has no final newline): EVERY text file gets the
+    # final-newline perturbations (a byte difference that leaves str::lines unchanged for files ending in
+    # exactly one LF / no LF) on every run; every other perturbation kind on every file in the thorough
+    # tier, a seeded sample of them in the quick tier.  "exit 0 iff identical bytes" is judged on all of them.
+    for lang in list(langs) + [l for l in FIXED_WORLD_EXTRA_LANGS if l not in langs]:
         def all_kinds(names, files, r=rng.fork(gid)):
-            sc = [[]]
+            always, sc = [[]], []
             for f in names:
-                kinds = L.TEXT_KINDS + L.ANY_KINDS if L.is_text(files[f]) else L.ANY_KINDS + ["crlf_some", "insert_text"]
+                text = L.is_text(files[f])
+                if text:
+                    for k in ("strip_final_newline", "append_newline"):
+                        always.append([{"kind": k, "file": f, "a": 0, "b": 0}])
+                kinds = [k for k in L.TEXT_KINDS if k not in ("strip_final_newline", "append_newline")] + L.ANY_KINDS if text \
+                    else L.ANY_KINDS + ["crlf_some", "insert_text"]
                 for k in kinds:
                     sc.append([{"kind": k, "file": f, "a": r.below(1 << 30), "b": r.below(1 << 16)}])
-            return sc if ctx.tier != "quick" else [sc[0]] + [sc[1 + r.below(len(sc) - 1)] for _ in range(8)]
+            return always + (sc if ctx.tier != "quick" else [sc[r.below(len(sc))] for _ in range(4)])
         groups.append((gid, lang, TINY_WIT, all_kinds, "tiny")); gid += 1
-        groups.append((gid, lang, UNI_WIT, (lambda r: (lambda names, files: [[]] + [[{"kind": k, "file": f, "a": r.below(1 << 30), "b": r.below(1 << 16)}]
+        if lang in langs:
+          groups.append((gid, lang, UNI_WIT, (lambda r: (lambda names, files: [[]] + [[{"kind": k, "file": f, "a": r.below(1 << 30), "b": r.below(1 << 16)}]
                                                                                    for f in names if L.is_text(files[f]) and any(c > 127 for c in files[f])
                                                                                    for k in ("crlf_all", "crlf_some", "crlf_plus_alter", "insert_nonascii")]))(rng.fork(gid)), "unicode")); gid += 1
     for i in range(n_worlds):
@@ -303,7 +313,7 @@ def _run(ctx, workdir, n_worlds, n_scen, langs):
                        % (len(mism), len(recs), r["lang"], json.dumps(r["perts"]), want, visited, r["nfiles"], m))
     ctx.coverage.update({
         "evaluations": len(recs), "distinct_nontrivial": len(nontrivial),
-        "rule": "seeded witgen worlds (+ a tiny fixed world with every perturbation kind) x languages %s; each generated directory is checked untouched and under 0-3 perturbations of distinct files (kinds: %s; binary files: %s) plus sometimes an unrelated extra file; non-trivial = at least one generated file is not identical; distinct = distinct (language, world, perturbation list)"
+        "rule": "seeded witgen worlds x languages %s (+ a tiny fixed world, also for go, in which EVERY generated text file gets strip_final_newline and append_newline on every run, plus every other perturbation kind in the thorough tier / a sample in quick); each generated directory is checked untouched and under 0-3 perturbations of distinct files (kinds: %s; binary files: %s) plus sometimes an unrelated extra file; non-trivial = at least one generated file is not identical; distinct = distinct (language, world, perturbation list)"
                 % (langs, ", ".join(L.TEXT_KINDS + ["delete", "make_dir", "flip_byte", "append_byte"]), ", ".join(L.ANY_KINDS)),
         "samples": [{"lang": r["lang"], "perts": r["perts"], "real": list(r["obs"]), "model": m, "tree_unchanged": r["before"] == r["after"]} for r, m in list(zip(recs, model))[1:6]],
         "traces_validated_against_impl": len(recs), "model_mismatches": len(mism),
